@@ -167,9 +167,11 @@ class RefServer:
             chunk = chunk[:-1]
         resp = Message(code=code, payload=chunk)
         resp.opt.block2 = (num, more, exp)
-        if mis == "etag-changes" and n_served >= 2:
+        if mis in ("etag-changes", "etag-disappears", "etag-appears") and n_served >= 2:
             self.misbehaved = True
         resp.opt.etag = self.etag if not (mis == "etag-changes" and n_served >= 2) else b"e2"
+        if (mis == "etag-disappears" and n_served >= 2) or (mis == "etag-appears" and n_served < 2):
+            resp.opt.etag = None            # the representation changed to / from one served without ETag
         if final_b1 is not None:
             resp.opt.block1 = final_b1
         self.expect_b2_offset = start + size if more else None
@@ -231,7 +233,7 @@ def mk_transfer(srv_exp, cl_exp, big):
 
 
 MIS = ["wrong-block1-number", "more-on-final-ack", "continue-on-final", "etag-changes", "block2-short", "block2-skip", "block2-repeat",
-       "block2-restart-bigger"]
+       "block2-restart-bigger", "etag-disappears", "etag-appears"]
 
 
 def mk_misbehave(srv_exp, cl_exp, big):
